@@ -187,6 +187,32 @@ theorem version_spec {ν : Type} (fs : Nat → Table ν) (ver : Nat → Option N
     | cons a as => simp
   · intro h; simp [h]
 
+/-! ### The reader's option routes -/
+
+/-- **Every route hands over what was named**: whichever way the caller names the custom set `c` and the file `f` -
+in a `calibration_parameters` dictionary (then the legacy keywords do not matter), or by the two legacy keywords
+with no such dictionary - the request that reaches the calibrator is (spacecraft, `f`, `c`), so by `request_pure` the
+coefficients used are `calSpec` of exactly these. -/
+theorem reader_routes_agree {ν : Type} (sat : Nat) (c lc : Option (List (Nat × ν))) (f lf : Option Nat) :
+    readerReq sat (readerOpts (some ⟨c, f⟩) lc lf) = ⟨sat, f.getD 0, c.getD []⟩ ∧
+    readerReq sat (readerOpts none c f) = ⟨sat, f.getD 0, c.getD []⟩ := ⟨rfl, rfl⟩
+
+/-- ... in particular both legacy keywords together: neither is dropped -/
+theorem legacy_both_forwarded {ν : Type} (sat f : Nat) (c : List (Nat × ν)) :
+    readerReq sat (readerOpts none (some c) (some f)) = ⟨sat, f, c⟩ := rfl
+
+/-- ... and the coefficients a reader uses after any history of earlier requests are the pure function of them -/
+theorem reader_uses_pure_function {ν : Type} (fs : Nat → Table ν) (ver : Nat → Option Nat)
+    (hist : List (Req ν)) (sat : Nat) (params : Option (CalOpts ν)) (lc : Option (List (Nat × ν))) (lf : Option Nat) :
+    ∃ o, (calRun fs ver none (hist ++ [readerReq sat (readerOpts params lc lf)])).2[hist.length]? = some o ∧
+      o.value = (calSpec fs ver (readerReq sat (readerOpts params lc lf))).value ∧
+      o.version = (calSpec fs ver (readerReq sat (readerOpts params lc lf))).version := by
+  have h := request_pure fs ver none (initial_ok fs ver) (hist ++ [readerReq sat (readerOpts params lc lf)])
+    hist.length (by simp)
+  simpa using h
+
+example : readerReq 7 (readerOpts (ν := Unit) none (some [(2, ())]) (some 3)) = ⟨7, 3, [(2, ())]⟩ := rfl
+
 /-- **Completeness of the shipped file**: every spacecraft name that either reader family can
 report has every key the calibrator reads (data regenerated from the shipped file and from
 the readers' name tables). -/
